@@ -4,6 +4,7 @@ CONSTANTS
   MaxD = 2
   Depth = 3
   Rich = TRUE
+  FormLevel = 0
 INVARIANT InvCoherent
 PROPERTY RefusalIsNoOp
 PROPERTY BondsFollowAtoms
